@@ -59,6 +59,33 @@ def e_replay(code, text, expected, got, oracle, fields=None):
             "expected": expected, "got": got, "oracle": oracle, "expect_fields": fields or {}}
 
 
+def describe_ops(ops):
+    out = []
+    for op in ops.split(" "):
+        if op == "N":
+            out.append("New")
+        elif op[0] == "S":
+            c, d = op[1:].split(":", 1)
+            d = "" if d == "-" else ", ".join("%s:%s" % (kv.split("=")[0], show(kv.split("=")[1])) for kv in d.split(","))
+            out.append("c%s.SetDCList{%s}" % (c, d))
+        elif op[0] == "T":
+            out.append("c%s.table" % op[1:])
+        elif op[0] == "P":
+            c, msg, info = op[1:].split(":", 2)
+            out.append("c%s.tryToProcessErr(%s,%s)" % (c, show(msg), info))
+    return "; ".join(out)
+
+
+def describe_obs(o):
+    if o.startswith("t:"):
+        n, rest = o[2:].split(";", 1)
+        return "table(%s entries: %s)" % (n, ", ".join("%s=%s" % (kv.split("=")[0], show(kv.split("=")[1])) for kv in rest.split(",") if kv))
+    if "," in o:
+        cls, a = o.split(",", 1)
+        return "%s addr=%r" % (cls, show(a))
+    return o
+
+
 def fields_hold(flds, impl):
     """impl = [ok, message_hex, info, code, description_hex]"""
     idx = {"message_hex": 1, "info": 2, "code": 3, "description_hex": 4}
@@ -210,6 +237,34 @@ def run(ctx):
                 C.violation(ctx, "fmt-model:" + f + ":" + arg,
                             "model of fmt.Sprintf differs on (%r, %s): model %r, Go %r" % (show(f), arg, show(m[0]), show(got)),
                             {"no_failing_input": True, "kind": "F", "format_hex": f, "arg": arg, "expected": show(m[0]), "got": show(got)})
+        elif kind == "H":
+            ops, impl, oracle = r[2], r[3], r[4]
+            key = "history:" + ops
+            nclients = ops.split(" ").count("N")
+            if nclients >= 2:
+                nontrivial.add(("H", ops))
+            mo = m[0] if m else None
+            first = None
+            for idx, (a, b) in enumerate(zip(impl.split(" "), oracle.split(" "))):
+                if a != b:
+                    first = (idx, a, b)
+                    break
+            if first is not None:
+                op = ops.split(" ")[first[0]]
+                C.violation(ctx, key, "history with %d clients [%s]: at op #%d (%s) the property gives %s, implementation gives %s"
+                            % (nclients, describe_ops(ops), first[0], describe_ops(op), describe_obs(first[2]), describe_obs(first[1])),
+                            {"kind": "H", "ops": ops, "history": describe_ops(ops), "failing_op_index": first[0],
+                             "expected": oracle, "got": impl,
+                             "oracle": "direct: every client owns a copy of defaultDCList plus its own SetDCList entries"})
+                continue
+            if mo != impl:
+                disagreements += 1
+                C.violation(ctx, key, "history [%s]: model (proved, crun/cstep) gives %s, implementation gives %s"
+                            % (describe_ops(ops), mo, impl),
+                            {"kind": "H", "ops": ops, "history": describe_ops(ops), "expected": mo, "got": impl,
+                             "oracle": "model Misc/RpcError.v cstep"})
+            if len(samples) < 14 and evals % 97 == 0:
+                samples.append({"history": describe_ops(ops), "observations": [describe_obs(o) for o in impl.split(" ")]})
         elif kind in ("M", "D"):
             if kind == "M":
                 dcs, code, text = r[2], r[3], r[4]
@@ -265,8 +320,11 @@ def run(ctx):
                  "(soup with % verbs, prefixes of rows, random bytes, mutated names), each with a random code; run through TryExpandError and "
                  "RpcErrorToNative and through the extracted to_native. F: fmt.Sprintf vs sprintf1 on every catalogue text and random formats. "
                  "M: RpcErrorToNative + the real tryToProcessErr vs handle, D: tryToProcessErr on hand-made errors vs process_err, over DC tables "
-                 "{empty, one, ids of defaultDCList, extreme ids, random}. non-trivial = distinct E texts matched by a table row or equal to a "
-                 "catalogued name + distinct M cases whose text starts with PHONE_MIGRATE_ + distinct D cases with message PHONE_MIGRATE_X",
+                 "{empty, one, ids of defaultDCList, extreme ids, random}. H: histories of NewMTProto / SetDCList / tryToProcessErr / table reads over 2-4 "
+                 "clients alive in one process (fixed scenarios first, then random; configured clients override the default ids with unresolvable "
+                 "addresses, fresh clients keep the default list and are asked only about ids outside it), real code vs extracted cstep vs a direct "
+                 "per-client oracle. non-trivial = distinct E texts matched by a table row or equal to a "
+                 "catalogued name + distinct M cases whose text starts with PHONE_MIGRATE_ + distinct D cases with message PHONE_MIGRATE_X + distinct H histories with at least 2 clients",
          "samples": samples, "input_distribution": stats, "disagreements_checked": disagreements,
          "coqchk": coqchk or "thorough tier only",
          "descriptions_outside_fmt_model": unmodelled_fmt,
@@ -282,6 +340,17 @@ def run(ctx):
 
 def replay(ctx, path):
     obj = json.load(open(path))
+    if obj.get("kind") == "H":
+        hb = C.build_harness("root", pkg="./cmd/c17")
+        rc, out = C.sh([hb, "one", "H", obj["ops"]], env=ctx.env())
+        if rc != 0:
+            raise C.BuildError("harness one failed: " + out[-1000:])
+        f = out.strip("\n").split("\t")
+        print("history=[%s]\n expected=%s\n got=%s" % (describe_ops(obj["ops"]), f[1], f[0]))
+        if f[0] != f[1] or f[0] != obj.get("expected", f[0]):
+            print("VIOLATION property=C17 replay=%s" % path)
+            return 1
+        return 0
     if obj.get("kind") not in ("E", "M", "D"):
         print("replay names a broken obligation or a model mismatch without input, re-running the full check")
         return run(ctx)
